@@ -34,7 +34,14 @@ type symInt struct {
 	t *Term
 	k types.BasicKind
 }
-type symFloat struct{ t *Term }
+
+// symFloat: num/den, when set, records that the value is exactly the integer term num divided by the constant den
+// (Duration.Seconds() and friends), so a following integer conversion is exact integer division.
+type symFloat struct {
+	t   *Term
+	num *Term
+	den int64
+}
 
 // unsupportedErr marks constructs the engine does not model: the path is
 // reported INCONCLUSIVE, never as success or violation.
@@ -500,13 +507,13 @@ func (i *interpreter) symFloatBinop(op token.Token, x, y value) value {
 	a, b := fpTerm(x), fpTerm(y)
 	switch op {
 	case token.ADD:
-		return symFloat{&Term{S: "(fp.add RNE " + a.S + " " + b.S + ")", Sort: SFP}}
+		return symFloat{t: &Term{S: "(fp.add RNE " + a.S + " " + b.S + ")", Sort: SFP}}
 	case token.SUB:
-		return symFloat{&Term{S: "(fp.sub RNE " + a.S + " " + b.S + ")", Sort: SFP}}
+		return symFloat{t: &Term{S: "(fp.sub RNE " + a.S + " " + b.S + ")", Sort: SFP}}
 	case token.MUL:
-		return symFloat{&Term{S: "(fp.mul RNE " + a.S + " " + b.S + ")", Sort: SFP}}
+		return symFloat{t: &Term{S: "(fp.mul RNE " + a.S + " " + b.S + ")", Sort: SFP}}
 	case token.QUO:
-		return symFloat{&Term{S: "(fp.div RNE " + a.S + " " + b.S + ")", Sort: SFP}}
+		return symFloat{t: &Term{S: "(fp.div RNE " + a.S + " " + b.S + ")", Sort: SFP}}
 	case token.EQL:
 		return mkBool(&Term{S: "(fp.eq " + a.S + " " + b.S + ")", Sort: SBool})
 	case token.NEQ:
@@ -599,7 +606,7 @@ func (i *interpreter) iteValue(c *Term, a, b value) (value, bool) {
 					return a, true
 				}
 			}
-			return symFloat{tIte(c, fpTerm(a), fpTerm(b))}, true
+			return symFloat{t: tIte(c, fpTerm(a), fpTerm(b))}, true
 		}
 	case structure:
 		bv, ok := b.(structure)
